@@ -462,6 +462,19 @@ class Check:
                     tr = pytrans.Translator(known={}, given=dep["given"], omitted=dep.get("omitted", ()))
                     defs.append(tr.function(pytrans.source_of(dep["file"]), dep["py"], "tr_" + dep["name"], dep["params"]))
                     known[dep["py"]] = ("tr_" + dep["name"], 1)
+                if "accumulation" in t:  # `out = 0; for i in range(lo, hi): out += e; return out`
+                    atr = pytrans.AccumulationTranslator()
+                    defs.append(atr.accumulation(pytrans.source_of(t["file"]), t["py"], "tr_" + t["name"], [tuple(x) for x in t["accumulation"]]))
+                    bind, names = [], []
+                    for a, k in t["accumulation"]:
+                        if k == "Row":
+                            bind.append(f"(v_len_{a} : Z) (v_{a} : list D)"); names += [f"v_len_{a}", f"v_{a}"]
+                        else:
+                            bind.append(f"(v_{a} : {k})"); names.append(f"v_{a}")
+                    lemma = (f"Lemma tie_{t['name']} : forall (T D : Type) (N : Num T) (V : Data T D) {' '.join(bind)},\n"
+                             f"  tr_{t['name']} N V {' '.join(names)} = {t['model']}.\nProof. intros. reflexivity. Qed.\n")
+                    texts[t["name"]] = tt.IMPORTS + "\n".join(defs) + "\n" + lemma
+                    continue
                 if "summand" in t:       # summand of a delay-and-sum accumulation loop
                     str_ = pytrans.SummandTranslator()
                     defs.append(str_.summand(pytrans.source_of(t["file"]), t["py"], "tr_" + t["name"], [tuple(x) for x in t["summand"]]))
